@@ -165,9 +165,28 @@ type Frame struct {
 	backSrc map[*ssa.BasicBlock][]*ssa.BasicBlock // block -> headers it has back edges to
 	ct      *FuncContract
 	ords    map[ssa.Instruction]map[string]int
+	defers  []deferred
 	atBlock *ssa.BasicBlock // program point for variable lookup in call-site assertions
 	atIdx   int
 	callOrd map[string]int
+}
+
+type deferred struct {
+	fn    *ssa.Function
+	args  []Val
+	binds []Val
+	guard string
+	ins   ssa.Instruction
+}
+
+func (f *Frame) loopDepthOf(b *ssa.BasicBlock) int {
+	n := 0
+	for _, li := range f.loops {
+		if li.body[b] {
+			n++
+		}
+	}
+	return n
 }
 
 type loopInfo struct {
@@ -203,10 +222,41 @@ func (u *Unit) arr(m *Mem, site, sort string) string {
 	}
 	u.sortOfSite(site, sort)
 	name := quoteSym("M0:" + site)
+	save := u.ctx.curBlk
+	u.ctx.curBlk = -1
 	u.ctx.declare(name, SArr(SInt, sort))
+	u.typingAxiom(name, site, u.entryMem.alloc)
+	u.ctx.curBlk = save
 	u.m0[site] = name
 	return name
 }
+
+// typingAxiom: every pointer stored in (this version of) a heap site is nil or points below the given allocation mark.
+// This is the quantified form of the well-typedness assumption made at loads; specifications that quantify over the
+// heap (representation invariants) need it.
+func (u *Unit) typingAxiom(arr, site, limit string) {
+	if l, ok := siteKind[site]; ok && l.Kind == "ptr" {
+		sz := 1
+		if pt, ok := l.T.Underlying().(*types.Pointer); ok {
+			sz = safeSizeOf(pt.Elem())
+		}
+		u.ctx.assert("typing", fmt.Sprintf("(forall ((a! Int)) (! (or (= (select %s a!) 0) (and (<= 1 (select %s a!)) (<= (+ (select %s a!) %d) %s))) :pattern ((select %s a!))))", arr, arr, arr, sz, limit, arr))
+		return
+	}
+	if strings.HasPrefix(site, "map.") && strings.Contains(site, ".val#") {
+		if mv, ok := mapValKind[site]; ok && mv.Kind == "ptr" {
+			sz := 1
+			if pt, ok := mv.T.Underlying().(*types.Pointer); ok {
+				sz = safeSizeOf(pt.Elem())
+			}
+			ks := mapKeySort[site]
+			u.ctx.assert("typing", fmt.Sprintf("(forall ((r! Int) (k! %s)) (! (or (= (select (select %s r!) k!) 0) (and (<= 1 (select (select %s r!) k!)) (<= (+ (select (select %s r!) k!) %d) %s))) :pattern ((select (select %s r!) k!))))", ks, arr, arr, arr, sz, limit, arr))
+		}
+	}
+}
+
+var mapValKind = map[string]Leaf{}
+var mapKeySort = map[string]string{}
 
 func (u *Unit) setArr(m *Mem, site, sort, term string) {
 	u.sortOfSite(site, sort)
